@@ -9,6 +9,7 @@ from typing_extensions import Never
 from mypy_extensions import mypyc_attr
 
 from pyjelly import jelly
+from pyjelly.errors import JellyConformanceError
 from pyjelly.options import MAX_VERSION, LookupPreset, StreamParameters, StreamTypes
 from pyjelly.parse.lookup import LookupDecoder
 
@@ -261,7 +262,11 @@ class Decoder:
         assert stream_types.physical_type == options.physical_type
         assert stream_types.logical_type == options.logical_type
         assert params.stream_name == options.stream_name
-        assert params.version >= options.version
+        if options.version > params.version:
+            # not an assert: it is the only place a newer protocol version is refused,
+            # and it has to hold under ``python -O`` as well
+            msg = f"unsupported protocol version {options.version}"
+            raise JellyConformanceError(msg)
         assert lookup_preset.max_prefixes == options.max_prefix_table_size
         assert lookup_preset.max_datatypes == options.max_datatype_table_size
         assert lookup_preset.max_names == options.max_name_table_size
